@@ -4,7 +4,7 @@ From Coq Require Import Reals ZArith List Bool Lra Lia String.
 From PyLib Require Import PyVal PyBuiltins Ideal IdealFacts Whnf PyEval.
 From Spec Require Import AngleSpec.
 From Gen Require Import M_base M_Angle.
-From Proofs.C09 Require Import C09_A_defs C09_A_tac C09_A_reduce C09_A_construct.
+From Proofs.C09 Require Import C09_A_defs C09_A_reduce C09_tac.
 Import ListNotations.
 Open Scope R_scope.
 
@@ -21,7 +21,7 @@ Ltac Znorm :=
   end.
 Ltac pylraz := Znorm; pylra.
 
-Ltac pyA_hook s tac ::=
+Ltac py9_hook s tac ::=
   lazymatch s with
   | Angle_reduce_deg Rops (VFloat ?x) => rewrite (reduce_deg_float x)
   | Angle_reduce_deg Rops (VInt ?z) => rewrite (reduce_deg_int z)
@@ -33,13 +33,13 @@ Proof.
   intro H. unfold mkA, blank, no_kw.
   assert (Hs : Rabs (s / 3600) < 360) by (unfold Rabs in *; destruct (Rcase_abs s); destruct (Rcase_abs (s / 3600)); lra).
   destruct (Rlt_dec s 0) as [Hn | Hn].
-  - pyrunA_using pylraz. Rlit_norm. unfold ang, angT. repeat f_equal.
+  - pyrun9_using pylraz. Rlit_norm. unfold ang, angT. repeat f_equal.
 
     replace (IZR (Z.abs 0 mod 360)) with 0 by reflexivity. replace (IZR (Z.abs 0)) with 0 by reflexivity.
     rewrite Rabs_left by lra.
     replace (-10 / 10 * (0 + 0 / (600 / 10) + - s / (36000 / 10))) with (s / 3600) by field.
     apply red360_small; assumption.
-  - pyrunA_using pylraz. Rlit_norm. unfold ang, angT. repeat f_equal.
+  - pyrun9_using pylraz. Rlit_norm. unfold ang, angT. repeat f_equal.
     replace (IZR (Z.abs 0 mod 360)) with 0 by reflexivity. replace (IZR (Z.abs 0)) with 0 by reflexivity.
     rewrite Rabs_right by lra.
     replace (10 / 10 * (0 + 0 / (600 / 10) + s / (36000 / 10))) with (s / 3600) by field.
